@@ -134,6 +134,23 @@ def mirror_both_glide(prob, a, b):
             and abs(sum(b["hu"].values()) - sum(a["cu"].values())) <= lim and abs(sum(b["cu"].values()) - sum(a["hu"].values())) <= lim)
 
 
+def real_supply_tie(prob):
+    """Trigger of finding D61 inside a twin comparison: two utilities of one side whose REAL supply temperatures coincide (to 1e-9) while
+    their shifted levels differ -- the visiting order (real supply temperature) is then decided by rounding noise and the duties
+    move between them (typically: an isothermal `Both` utility with its 0.1 K artificial glide against the default utility)."""
+    try:
+        out, mz = pc.run_service(prob)
+    except Exception:  # noqa: BLE001
+        return False
+    for coll, star in ((mz.hot_utilities, "t_max_star"), (mz.cold_utilities, "t_min_star")):
+        us = [(float(u.t_supply), float(getattr(u, star))) for u in coll]
+        for i in range(len(us)):
+            for j in range(i + 1, len(us)):
+                if abs(us[i][0] - us[j][0]) <= 1e-9 * max(1.0, abs(us[i][0])) and abs(us[i][1] - us[j][1]) > 1e-6:
+                    return True
+    return False
+
+
 def same_key_streams(prob):
     """Trigger of finding D57: two input streams share (zone, name), the only key the code sorts by before generating O<k> zones."""
     keys = [(x["zone"], x["name"]) for x in prob["streams"]]
@@ -269,6 +286,13 @@ def run(ctx):
     base.append((dict(streams=[dict(zone="A", name="S", t_supply=200.0, t_target=100.0, heat_flow=1000.0, dt_cont=5.0, htc=1.0),
                                dict(zone="A", name="S", t_supply=50.0, t_target=150.0, heat_flow=800.0, dt_cont=5.0, htc=1.0)],
                       utilities=[], options=dict(DO_DIRECT_OPERATION_TARGETING=True)), dict(permute_reverse=True, only=["permute"])))
+    # D61 witness (open finding): isothermal Both utility (302.5 + 0.1 K artificial glide, dt 10) and the default HU (297.6 + 5) have the
+    # same real supply temperature 302.6 but different shifted levels; translated by -300 the visiting order flips and the default
+    # utility takes the whole duty
+    base.append((dict(streams=[dict(zone="P1", name="C", t_supply=21.5, t_target=295.0, heat_flow=547.0, dt_cont=2.5, htc=0.5),
+                               dict(zone="P1", name="H", t_supply=258.5, t_target=177.0, heat_flow=101.875, dt_cont=5.0, htc=2.0)],
+                      utilities=[dict(name="TopU", type="Both", t_supply=302.5, t_target=302.5, heat_flow=0.0, dt_cont=10.0, htc=1.0, price=30.0)]),
+                 dict(translate_d=-300.0, only=["translate"])))
     # regression of a corrected false alarm (DESIGN 12.3 item 12): a 0.000125 K wide stream (CP 40000) translated by an off-lattice amount
     base.append((dict(streams=[dict(zone="P0", name="S0_0", t_supply=195.0, t_target=55.0, heat_flow=105.0, dt_cont=5.0, htc=0.5),
                                dict(zone="P0", name="N1_0", t_supply=60.0, t_target=190.0, heat_flow=260.0, dt_cont=5.0, htc=1.0),
@@ -355,6 +379,12 @@ def run(ctx):
             ctx.fail("mirror-both-isothermal-glide", f"mirror: pinch temperature of record {name} is off by the 0.1 K artificial glide of an "
                      "isothermal Both utility", suite="twins", input=dict(problem=prob, twin=q, transformation=tname, record=name),
                      impl_output=dict(original=a, twin=b), predicate="c12_b")
+            continue
+        if v[1:2] == [122] and (real_supply_tie(prob) or real_supply_tie(q)):
+            ctx.fail("not-lowest-grade-first-mixed-contributions", f"{tname}: record {name}: duties move between two utilities whose real supply "
+                     "temperatures coincide while their shifted levels differ (visiting order decided by rounding noise: finding D61)",
+                     suite="twins", input=dict(problem=prob, twin=q, transformation=tname, record=name), impl_output=dict(original=a, twin=b),
+                     predicate="c12_b")
             continue
         if knife_edge(prob, q, ra):
             frag += 1
